@@ -2,6 +2,7 @@
 //! message parser, a TLS client that records the presented chain.
 
 pub mod h1;
+pub mod h2;
 pub mod tls;
 
 use std::{
